@@ -267,9 +267,11 @@ def normalise(o):
         ce = []
         for c in run["cache_events"]:
             if c["ev"] == "insert":
-                ce.append({"ev": "insert", "name": c["name"], "type": c["type"], "data": c["data"], "ttl": c["ttl"]})
+                # (the target of an NS record as labels: a change of notation of its data, "ns1.ex.com." -> [ns1, ex, com])
+                tgt = [l for l in c["data"].rstrip(".").split(".") if l] if c["type"] == "NS" else []
+                ce.append({"ev": "insert", "name": c["name"], "type": c["type"], "data": c["data"], "ttl": c["ttl"], "target": tgt})
             else:
-                ce.append({"ev": c["ev"], "name": c.get("name", []), "type": c.get("qtype", ""), "data": "", "ttl": 0})
+                ce.append({"ev": c["ev"], "name": c.get("name", []), "type": c.get("qtype", ""), "data": "", "ttl": 0, "target": []})
         run["cache_events"] = ce
     o.pop("table", None)
     o.pop("default", None)
@@ -287,7 +289,7 @@ def run_scenarios(v, pid, wd, name, scenarios, chunk=150):
     obs, crashes = wc.run_harness_lines("resolve", inp, out, scenarios, timeout=max(60, len(scenarios) // 8), max_crashes=6)
     for idx, reason in crashes:
         sc = scenarios[idx]
-        if pid == "C08" or "exit status" in reason:
+        if pid in ("C08", "C10") or "exit status" in reason:       # termination is C08's and - for alias loops - C10's
             v.violation("a resolution did not terminate, or took the process down (%s)" % reason,
                         {"mode": sc["mode"], "questions": sc["questions"], "zones": wc.shrink(sc["zones"], 10),
                          "table_size": len(sc["table"])})
@@ -345,6 +347,8 @@ def adversarial_universe():
             R(["t", "ex", "com"], "A", "2.2.2.2"), R(["t", "ex", "com"], "CNAME", "u.other.", ["u", "other"]),
             R(["u", "other"], "A", "3.3.3.3"), R(["u", "other"], "CNAME", "www.ex.com.", www),
             R(["off", "ex", "com"], "CNAME", "evil.x.", ["evil", "x"]), R(["evil", "x"], "A", "6.6.6.6"),
+            # aliases with a foreign owner that share their TARGET with an alias on the path
+            R(["login", "bank", "com"], "CNAME", "t.ex.com.", ["t", "ex", "com"]), R(["x", "other"], "CNAME", "u.other.", ["u", "other"]),
             R(www, "TXT", "x00"), R(www, "AAAA", "::1"), R(["bank", "com"], "A", "6.6.6.7"),
             R(ex, "NS", "ns1.ex.com.", ["ns1", "ex", "com"]), R(ex, "NS", "ns2.other.", ["ns2", "other"]),
             R(["com"], "NS", "a.gtld.", ["a", "gtld"]), R([], "NS", "a.root.", ["a", "root"]),
@@ -367,6 +371,10 @@ def end_to_end_c06(v, wd, r, tier):
     univ = adversarial_universe()
     hints = zone([], [rr([], "NS", "a.root.", ["a", "root"], ttl=3600), rr(["a", "root"], "A", "10.0.0.1", ttl=3600)], auth=False)
     scs = []
+    # which host each address belongs to (the depth of the delegation in use at an exchange is derived from it)
+    hostaddrs = [{"host": ["a", "root"], "v": 4, "addr": "10.0.0.1"}, {"host": ["ns1", "ex", "com"], "v": 4, "addr": "7.7.7.7"},
+                 {"host": ["a", "gtld"], "v": 4, "addr": "9.9.9.9"}, {"host": ["ns", "evil"], "v": 4, "addr": "8.8.8.8"},
+                 {"host": ["ns1", "ex", "com"], "v": 6, "addr": "::7"}, {"host": ["ns2", "other"], "v": 6, "addr": "::9"}]
     n = 300 if tier == "quick" else 3000
     for i in range(n):
         table = []
@@ -383,7 +391,7 @@ def end_to_end_c06(v, wd, r, tier):
             if r.random() < 0.5:
                 q["faults"] = {str(r.randint(0, 3)): r.choice(HEADER_FAULTS)}
             qs.append(q)
-        scs.append(scenario([hints], [], "recursive", qs, table=table, default={"rcode": 2}, tag=""))
+        scs.append(scenario([hints], [], "recursive", qs, table=table, default={"rcode": 2}, tag="", hostaddrs=hostaddrs))
     run_scenarios(v, "C06", wd, "e2e", scs)
     v.notes["end_to_end_resolutions"] = n * 2
 
@@ -572,13 +580,37 @@ def alias_scenarios(r, n):
             c.pop("wild")
             cache.append(c)
         mode = r.choice(["auth", "recursive", "forwarding"]) if not auth_lan or not up_links else "auth"
-        # upstream: every alias it holds, one per reply (well-behaved, A1), and the final record
+        # a wildcard alias in the local data: names one and two labels beneath it are asked as well
+        wild_qs = []
+        if r.random() < 0.3:
+            w = rr(["dyn", "lan"], "CNAME", dotted(names[0]), names[0], wild=True)
+            if auth_lan:
+                zones[-1]["recs"].append(w)
+            else:
+                zones[0]["recs"].append(w)
+            wild_qs = [{"name": ["a", "dyn", "lan"], "type": "A"}, {"name": ["a", "b", "dyn", "lan"], "type": "A"},
+                       {"name": ["a", "b", "c", "dyn", "lan"], "type": "TXT"}]
+        # upstream: every alias it holds, one per reply (well-behaved, A1), and the final record; or (bulk) the whole
+        # chain it holds from the asked name on in one reply, in chain order - loops included, as a recursive upstream
+        # or an attacker would send them
+        bulk = r.random() < 0.35
         table = []
         if mode != "auth":
             for addr in ("10.0.0.1", "10.9.9.9"):
                 for j, nm in enumerate(names):
                     for t in ("A", "TXT", "CNAME", "ANY"):
                         ans = [{k2: v2 for k2, v2 in x.items() if k2 != "wild"} for x in up_links if x["name"] == nm]
+                        if bulk and ans and t != "CNAME":
+                            seen_n, cur = {tuple(nm)}, ans[0]["target"]
+                            while tuple(cur) not in seen_n:
+                                seen_n.add(tuple(cur))
+                                nxt = [x for x in up_links if x["name"] == cur]
+                                if not nxt:
+                                    break
+                                ans.append({k2: v2 for k2, v2 in nxt[0].items() if k2 != "wild"})
+                                cur = nxt[0]["target"]
+                            if fw == "up" and cur == names[k] and t in ("A", "ANY"):
+                                ans.append({k2: v2 for k2, v2 in final.items() if k2 != "wild"})
                         if not ans and fw == "up" and j == k and t in ("A", "ANY"):
                             ans = [{k2: v2 for k2, v2 in final.items() if k2 != "wild"}]
                         table.append({"addr": addr, "qname": nm, "qtype": t,
@@ -586,5 +618,6 @@ def alias_scenarios(r, n):
                                           {"name": ["lan"], "type": "SOA", "data": "m. r. 1 2 3 4 5", "target": [], "ttl": 60}],
                                           "additional": []}})
         qs = [{"name": names[r.choice([0, 0, 1, k // 2])], "type": r.choice(["A", "A", "TXT", "CNAME", "ANY"])} for _ in range(3)]
+        qs += wild_qs
         out.append(scenario(zones, cache, mode, qs, table=table, default={"rcode": 2}))
     return out
